@@ -80,6 +80,24 @@ def build_specs(ctx, d):
         g.append(spec("three-chains", "hashseed=12345", small, 3, a, hashseed="12345"))
         g.append(spec("three-chains", "hashseed=random+completion-order=(2, 1, 0)", small, 3, a, hashseed=None, env={"PHYCLONE_VERIF_END_DELAYS": delays((2, 1, 0), gap)}, want_order=[2, 1, 0]))
     groups.append(("three-chains", g))
+    # --- clustered input with --assign-loss-prob: the loader itself draws from the seeded generator (10^4 choices per cluster)
+    rows = runs.make_rows(ctx.rng, 10, 2, depth=(20, 40))
+    for r in rows:
+        r["mutation_id"] = "c%s:%s" % (r["mutation_id"][1:], r["mutation_id"])
+    big = runs.write_input(os.path.join(d, "clustered.tsv"), rows)
+    cl = os.path.join(d, "clusters.tsv")
+    with open(cl, "w") as fh:
+        fh.write("mutation_id\tsample_id\tcluster_id\tcellular_prevalence\tchrom\n")
+        for m in range(10):
+            for smp in range(2):
+                cid = 0 if m < 5 else 1
+                fh.write("c%d:m%d\tS%d\t%d\t%s\t%s\n" % (m, m, smp, cid, "0.9" if cid == 0 else "0.3", "chr%d" % (m + 1) if cid == 0 else "chr7"))
+    a = ["--proposal", "semi-adapted", "-c", cl, "--assign-loss-prob", "--grid-size", 41]
+    g = [spec("clustered-assign-loss", "reference", big, 2, a), spec("clustered-assign-loss", "hashseed=random+completion-order=(1, 0)", big, 2, a, hashseed=None, env={"PHYCLONE_VERIF_END_DELAYS": delays((1, 0), gap)}, want_order=[1, 0])]
+    if not ctx.quick:
+        g.append(spec("clustered-assign-loss", "hashseed=1", big, 2, a, hashseed="1"))
+        g.append(spec("clustered-assign-loss", "affinity=1-core", big, 2, a, taskset=0))
+    groups.append(("clustered-assign-loss", g))
     # --- the repository's example input, default grid
     a = ["--proposal", "semi-adapted"]
     g = [spec("example-2-chains", "reference", example, 2, a), spec("example-2-chains", "hashseed=random+completion-order=(1, 0)", example, 2, a, hashseed=None, env={"PHYCLONE_VERIF_END_DELAYS": delays((1, 0), gap)}, want_order=[1, 0])]
@@ -94,7 +112,7 @@ def run(ctx):
     coq.check_property_file(ctx)
     ctx.rule = (
         "groups of `phyclone run --seed S` command lines (1, 2, 3 chains on a generated 4-mutation x 2-sample input with three proposals / outlier / subtree settings; 2 chains on "
-        "examples/data/mixing_small.tsv): reference under PYTHONHASHSEED=0 vs hash seeds {1, 12345, random}, taskset -c 0, every completion order of 2 chains and (thorough: all 6, "
+        "examples/data/mixing_small.tsv; 2 chains on a clustered input with --assign-loss-prob, whose loader draws from the seeded generator): reference under PYTHONHASHSEED=0 vs hash seeds {1, 12345, random}, taskset -c 0, every completion order of 2 chains and (thorough: all 6, "
         "quick: 3) of 3 chains, start orders, forced by the delay hook; per-chain traces compared entry by entry with float.hex; non-trivial = every variation run; distinct = (group, variation)"
     )
     ctx.exhaustive = False
